@@ -26,6 +26,10 @@ GRAPHS = {
     "chain": dict(types=["src", "pa", "pb"], plugin=dict(src="Src", pa="PA", pb="PB"), deps=dict(Src=[], PA=["src"], PB=["pa"])),
     "multi": dict(types=["src", "mx", "my", "pz"], plugin=dict(src="Src", mx="M", my="M", pz="PZ"),
                   deps=dict(Src=[], M=["src"], PZ=["mx"])),
+    # a consumer of *both* outputs of a multi-output plugin: with one of them stored the plugin still has to run for the other,
+    # and the stored one must reach the consumer from its loader only
+    "multi_both": dict(types=["src", "mx", "my", "pw"], plugin=dict(src="Src", mx="M", my="M", pw="PW"),
+                       deps=dict(Src=[], M=["src"], PW=["mx", "my"])),
     "diamond": dict(types=["src", "pa", "pb", "pc"], plugin=dict(src="Src", pa="PA", pb="PB", pc="PC"),
                     deps=dict(Src=[], PA=["src"], PB=["src"], PC=["pa", "pb"])),
 }
@@ -34,6 +38,7 @@ POLICIES = {
               dict(src="EXPLICIT", pa="NEVER", pb="TARGET")],
     "multi": [dict(src="ALWAYS", mx="ALWAYS", my="ALWAYS", pz="ALWAYS"), dict(src="ALWAYS", mx="TARGET", my="ALWAYS", pz="TARGET"),
               dict(src="TARGET", mx="EXPLICIT", my="NEVER", pz="ALWAYS"), dict(src="ALWAYS", mx="NEVER", my="TARGET", pz="EXPLICIT")],
+    "multi_both": [dict(src="ALWAYS", mx="ALWAYS", my="ALWAYS", pw="ALWAYS"), dict(src="ALWAYS", mx="TARGET", my="EXPLICIT", pw="TARGET")],
     "diamond": [dict(src="ALWAYS", pa="ALWAYS", pb="TARGET", pc="ALWAYS"), dict(src="EXPLICIT", pa="TARGET", pb="NEVER", pc="TARGET")],
 }
 
@@ -48,6 +53,9 @@ def classes_for(graph, policy, rec=None):
     if graph == "multi":
         return [src, H.multi(("mx", "my"), "src", save_when={"mx": sw["mx"], "my": sw["my"]}, rec=rec),
                 H.rowmap("pz", "mx", save_when=sw["pz"], rec=rec, rechunk_on_save=False)]
+    if graph == "multi_both":
+        return [src, H.multi(("mx", "my"), "src", save_when={"mx": sw["mx"], "my": sw["my"]}, rec=rec),
+                H.pair("pw", "mx", "my", save_when=sw["pw"], rec=rec)]
     return [src, H.samekind_map("pa", "src", "ab", "va", add=1, save_when=sw["pa"], rec=rec, rechunk_on_save=False),
             H.samekind_map("pb", "src", "ab", "vb", mul=2, save_when=sw["pb"], rec=rec, rechunk_on_save=False),
             H.combine("pc", ("pa", "pb"), ("va", "vb"), save_when=sw["pc"], rec=rec, rechunk_on_save=False)]
@@ -109,7 +117,7 @@ def execute(arg):
 
         def ctx(rec=None):
             storage = [strax.DataDirectory(d)] + ([strax.DataDirectory(d2)] if d2 else [])
-            st = strax.Context(storage=storage, register=classes_for(graph, policy, rec=rec), allow_multiprocess=False)
+            st = strax.Context(storage=storage, register=classes_for(graph, policy, rec=rec), allow_multiprocess=False, timeout=30)
             cc = {}
             if case["forbid"] == "all":
                 cc["forbid_creation_of"] = "*"
@@ -154,25 +162,39 @@ def execute(arg):
                        nsavers=[writable] if case["saves"] else [])
             if got != exp:
                 res["bad"].append(f"get_components gives {got}, definition gives {exp}")
-            # the real run: who computes, what is stored afterwards
-            rec = H.Recorder()
-            st = ctx(rec)
-            before = stored_types(d)
-            try:
-                with warnings.catch_warnings():
-                    warnings.simplefilter("ignore")
-                    st.get_array("0", case["target"], save=tuple(case["save"]), progress_bar=False, **kw)
-                ran = sorted({c[0] for c in rec.calls})
-                ran_plugins = sorted({GRAPHS[graph]["plugin"][("mx" if t == "mx" else t)] for t in ran})
-                after = stored_types(d)
-                if ran_plugins != sorted(case["run"]):
-                    res["bad"].append(f"plugins that computed {ran_plugins}, expected {sorted(case['run'])}")
-                if after - before != set(case["saves"]):
-                    res["bad"].append(f"newly stored {sorted(after - before)}, expected {sorted(case['saves'])}")
-                if d2 is not None and stored_types(d2) != set(case["saves"]):
-                    res["bad"].append(f"second frontend stored {sorted(stored_types(d2))}, expected {sorted(case['saves'])}")
-            except Exception as e:  # noqa
-                res["bad"].append(f"the run raised {type(e).__name__}: {str(e)[:100]}")
+            # the real run on both processors: who computes, what is delivered, what is stored afterwards
+            ref_rows = None
+            for proc in ("single_thread", "threaded_mailbox"):
+                for dd in (d, d2):
+                    if dd:
+                        shutil.rmtree(dd, ignore_errors=True)
+                        os.makedirs(dd)
+                for name in os.listdir(tpl):
+                    if len(name.split("-")) == 3 and name.split("-")[1] in case["stored"]:
+                        shutil.copytree(os.path.join(tpl, name), os.path.join(d, name))
+                rec = H.Recorder()
+                st = ctx(rec)
+                before = stored_types(d)
+                try:
+                    with warnings.catch_warnings():
+                        warnings.simplefilter("ignore")
+                        x = st.get_array("0", case["target"], save=tuple(case["save"]), progress_bar=False, processor=proc, **kw)
+                    rows = [tuple(int(v) for v in (r["time"], r["endtime"])) for r in x]
+                    if ref_rows is None:
+                        ref_rows = rows
+                    elif rows != ref_rows:
+                        res["bad"].append(f"{proc} delivers {len(rows)} rows, single_thread {len(ref_rows)}")
+                    ran = sorted({c[0] for c in rec.calls})
+                    ran_plugins = sorted({GRAPHS[graph]["plugin"][("mx" if t == "mx" else t)] for t in ran})
+                    after = stored_types(d)
+                    if ran_plugins != sorted(case["run"]):
+                        res["bad"].append(f"{proc}: plugins that computed {ran_plugins}, expected {sorted(case['run'])}")
+                    if after - before != set(case["saves"]):
+                        res["bad"].append(f"{proc}: newly stored {sorted(after - before)}, expected {sorted(case['saves'])}")
+                    if d2 is not None and stored_types(d2) != set(case["saves"]):
+                        res["bad"].append(f"{proc}: second frontend stored {sorted(stored_types(d2))}, expected {sorted(case['saves'])}")
+                except Exception as e:  # noqa
+                    res["bad"].append(f"the run on {proc} raised {type(e).__name__}: {str(e)[:100]}")
         return res
     finally:
         shutil.rmtree(d, ignore_errors=True)
@@ -194,7 +216,7 @@ def execute_fe(arg):
         def ctx(rec=None):
             storage = [strax.DataDirectory(d, readonly=bool(f["ro"]), take_only=tuple(f["only"]), exclude=tuple(f["excl"]))
                        for d, f in zip(dirs, case["fe"])]
-            return strax.Context(storage=storage, register=classes_for(graph, policy, rec=rec), allow_multiprocess=False)
+            return strax.Context(storage=storage, register=classes_for(graph, policy, rec=rec), allow_multiprocess=False, timeout=30)
 
         def where(path):
             return next((i + 1 for i, d in enumerate(dirs) if str(path).startswith(d)), 0)
